@@ -213,6 +213,20 @@ def run(st, tier, seed):
                     judge(out, inp, what, redo=lambda: des_out)
                     if len(res.samples) < 2:
                         res.sample({"mutation": what, "file": rel, "accepted": True})
+    # more UNMUTATED programs through both back-ends (cheap: no mutants): nesting, starred nested super-sequences, repeated ports
+    for k in range(60 if tier == "quick" else 1500):
+        b = progen.gen_component_bundle(rng, size=rng.choice([6, 10, 14])) if rng.random() < 0.5 else \
+            progen.gen_system_bundle(rng, depth=rng.randint(1, 3), size=5, n_templates=2)
+        if b is None:
+            continue
+        with core.scratch("pepper_c09u_") as d:
+            progen.write_bundle(b, d)
+            base = compile_dir(d, b.entry, [], b.includes)
+            res.evaluations += 1
+            res.count("unmutated-extra")
+            if base is not None:
+                judge(base, {"files": b.texts, "entry": b.entry, "includes": b.includes}, "unmutated program",
+                      redo=lambda: compile_dir(d, b.entry, [], b.includes, "des"))
     # directed: number of instance arguments vs number of template parameters.  The entry file of a generated program gets two
     # (unused) parameters; it is compiled at top level with 2 / 1 / 3 arguments and, wrapped into a system, as an instance with
     # (1, 2) / (1) / (1, 2, 3) / ().  Wherever the numbers differ the compiler must not produce output.
